@@ -8,7 +8,7 @@ META = {
                    "registration of the pid every statement aborts into a handler that kills or registers the process (SG4); registered "
                    "processes are terminated first by run_plan's handler, covering all entries, and no abort path commits (SG5); below run_plan no call inside an abort clause can raise and thereby replace the abort (SG10, typed exception summaries); SIGINT/SIGTERM are never ignored, masked or re-routed after start-up (SG11, inventory of signal-disposition calls); no version "
                    "row unless the task exited 0 (RT1, RT2); the abort is reported through cli_command (CLI1).",
-    "rules": ["SG1", "SG2", "SG3", "SG4", "SG5", "SG10", "SG11", "RT1", "RT2", "CLI1", "EX6", "EX7"],
+    "rules": ["SG1", "SG2", "SG3", "SG4", "SG5", "SG10", "SG11", "RT1", "RT2", "CLI1", "EX6", "EX7", "SG12"],
     "assumptions": ["statement granularity: `x = f()` is the callee's statements followed by an atomic bind (DESIGN §3.7); interruption inside Popen.__init__ after fork is not modelled",
                     "the tee threads' shutdown timing is run-time behaviour"],
     "trusted": ["ast parser", "call graph + RTA for the set of functions reachable from `cond run`"],
@@ -23,6 +23,7 @@ def run(A, rep, tier):
     S.rule_sg5(A, rep)
     S.rule_sg10(A, rep)
     S.rule_sg11(A, rep)
+    S.rule_sg12(A, rep)
     R.rule_rt1(A, rep)
     R.rule_rt2(A, rep)
     E.rule_cli1(A, rep)
